@@ -12,6 +12,7 @@ import JV.Drv.Binary
 import JV.Drv.Dom
 import JV.Drv.JsonPath
 import JV.Drv.JMESPath
+import JV.Drv.Csv
 open JV Drv
 
 def dispatch (line : String) : String :=
@@ -27,6 +28,7 @@ def dispatch (line : String) : String :=
   | "dom" :: rest => domLine rest
   | "jp" :: rest => jpLine rest
   | "jm" :: rest => jmLine rest
+  | "csvm" :: rest => csvmLine rest
   | [] => ""
   | _ => "bad-op"
 
